@@ -62,6 +62,30 @@ def _leaf(S, name, kind):
     return STRS[S.choice(name + "_str", len(STRS))]
 
 
+def _eager_exception(src, env):
+    """the exception Python raises when the boolean operators of `src` evaluate ALL their operands (the statement's semantics for
+    and/or: no short circuit), or None"""
+    import ast
+
+    class Eager(ast.NodeTransformer):
+        def visit_BoolOp(self, node):
+            self.generic_visit(node)
+            return ast.copy_location(ast.Call(func=ast.Name(id="_all_operands", ctx=ast.Load()),
+                                              args=[ast.Constant(isinstance(node.op, ast.And)), ast.List(elts=node.values, ctx=ast.Load())], keywords=[]), node)
+
+    def _all_operands(is_and, values):
+        for v in values:
+            if bool(v) != is_and:
+                return v
+        return values[-1]
+    tree = ast.fix_missing_locations(Eager().visit(ast.parse(src, mode="eval")))
+    try:
+        eval(compile(tree, "<eager>", "eval"), {"__builtins__": {}, "_all_operands": _all_operands}, dict(env))        # nosec
+    except (ZeroDivisionError, OverflowError, IndexError, TypeError) as e:
+        return e
+    return None
+
+
 def body_expr(S, t, part):
     pm = t.machine.placeholder_manager
     src = part["src"]
@@ -83,6 +107,11 @@ def body_expr(S, t, part):
         if isinstance(py_exc, (ZeroDivisionError, OverflowError, IndexError)):
             S.note("nontrivial", True)
             S.note("outcome", "both-raise")
+            return
+        if py_exc is None and (" and " in src or " or " in src) and isinstance(_eager_exception(src, env), (ZeroDivisionError, OverflowError, IndexError)):
+            # an operand that Python's short circuit skips raises when all operands are evaluated, as the statement prescribes
+            S.note("nontrivial", True)
+            S.note("outcome", "both-raise-all-operands")
             return
         if py_exc is not None:
             raise Violation("type-incompatible-operands-give-default", "_eval_unary_op" if src.startswith(("-", "not")) else "BaseTemplate.evaluate",
